@@ -52,8 +52,12 @@ func ASEIsolationLevelFromGo(lvl sql.IsolationLevel) (ASEIsolationLevel, error) 
 // ToGo returns the database/sql.IsolationLevel equivalent of the ASE
 // isolation level.
 func (lvl ASEIsolationLevel) ToGo() sql.IsolationLevel {
-	for sqlLvl, aseLvl := range sql2ase {
-		if aseLvl == lvl {
+	// Iterate the levels in a fixed order - ranging over the map would
+	// return a random one of the levels sharing an ASE level.
+	// sql.LevelDefault is an alias for read committed and never returned
+	// for a known level.
+	for sqlLvl := sql.LevelReadUncommitted; sqlLvl <= sql.LevelLinearizable; sqlLvl++ {
+		if aseLvl, ok := sql2ase[sqlLvl]; ok && aseLvl == lvl {
 			return sqlLvl
 		}
 	}
